@@ -135,7 +135,7 @@ pub fn agent_fetch(candidates: bool, reply_template: &str) -> String {
 
 /// C18: the reply future of `Session::close()` owns the session. Dropping it - never polled, or polled once so
 /// that it is the one reading from the transport - while other requests are outstanding must leave those
-/// requests able to complete with their own replies. Every n in 1..=3, every subset of waiters polled once
+/// requests able to complete with their own replies. Every n in 1..=3 (thorough: 4), every subset of waiters polled once
 /// before the close, both ways of abandoning the close future, every order of reply arrival.
 pub fn close_future_dropped(report: &mut crate::ev::Report) -> u64 {
     use netconf::message::rpc::operation::{Builder as _, Get};
@@ -157,7 +157,8 @@ pub fn close_future_dropped(report: &mut crate::ev::Report) -> u64 {
         out
     }
     let mut cases = 0u64;
-    for n in 1..=3usize {
+    let max_n = if report.tier.thorough() { 4usize } else { 3 };
+    for n in 1..=max_n {
         for polled_mask in 0..(1u32 << n) {
             for poll_close in [false, true] {
                 for order in perms(n) {
